@@ -42,6 +42,9 @@ CLAIMED = {
  "C14": ("reviewed provenance table over resolved object.New call sites; structural checks of comparator, scan direction and sweeper callbacks on go/cfg; bookkeeping symmetry of the expiry index",
          "expiry as a logged delete (the sweepers pass writeAOF under the exclusive lock), symmetric maintenance of the expiry index with the same guard on insert and delete, the deadline each handler stores (SET/EXPIRE new, FSET inherited, PERSIST/JSET/JDEL none), the expiry index ordered by deadline first and scanned ascending with the sweepers stopping at the first future deadline",
          "timing (never early / bounded delay against the wall clock) and TTL arithmetic"),
+ "C04": ("dominance and must-pass-through on the go/cfg of loadAOF",
+         "the tail-repair protocol of loadAOF: bytes read are counted before parsing; on EOF with an incomplete remainder the size is moved back by its length, the file truncated there and the write offset moved there (truncate and seek paired on all normal paths, errors returned); NUL bytes are tested and skipped before every parse; a non-empty remainder is carried to the next chunk",
+         "that the recovered state equals the prefix state (value-level) and RESP framing (library)"),
 }
 
 NOT_APPLICABLE = {
